@@ -285,6 +285,34 @@ def r09c(model: Model, rr: RuleResult):
     ww = [c for c in calls_in(wfi) if norm(c.func) == "config.write"]
     if len(ww) == 1:
         wcfg = cfg_of(wfi)
+        # the file written is the very file the build edges consume (not a sibling that is swapped in conditionally)
+        tgt = ww[0].args[0] if ww[0].args else None
+        tdefs = wcfg.reaching(wcfg.node_for(ww[0]), tgt.id) if isinstance(tgt, ast.Name) else []
+        tval = tdefs[0].value if len(tdefs) == 1 else (tgt if not isinstance(tgt, ast.Name) else None)
+        def _is_cfg_path(e):
+            if isinstance(e, ast.Call) and norm(e.func) == "_config_file" and len(e.args) == 1:
+                return True
+            if isinstance(e, ast.Name):
+                ds = wcfg.all_defs(e.id)
+                return len(ds) == 1 and ds[0].value is not None and _is_cfg_path(ds[0].value)
+            return False
+        # write-to-temporary-then-rename is fine when the rename happens on every path
+        moved = False
+        for c in calls_in(wfi):
+            a = None
+            if callee_tail(c) in ("replace", "rename") and isinstance(c.func, ast.Attribute) and isinstance(tgt, ast.Name) and norm(c.func.value) == tgt.id and len(c.args) == 1:
+                a = c.args[0]
+            elif norm(c.func) in ("os.replace", "os.rename", "shutil.move") and len(c.args) == 2 and isinstance(tgt, ast.Name) and norm(c.args[0]) == tgt.id:
+                a = c.args[1]
+            if a is not None and _is_cfg_path(a) and wcfg.postdominates(wcfg.node_for(c), wcfg.entry) and not guard_facts(wcfg, wcfg.node_for(c), skip_abort_guards=True):
+                moved = True
+        if _is_cfg_path(tval if tval is not None else tgt):
+            rr.ok("config.write targets _config_file(font_config), the path every font edge lists as its config")
+        elif moved:
+            rr.ok("config.write targets a temporary file that is renamed onto _config_file(font_config) on every path")
+        else:
+            rr.bad(wfi, ww[0], f"config.write targets {short(tval) if tval is not None else short(tgt)}, not _config_file(font_config): whether the edges' config is replaced "
+                   f"then depends on a later, conditional step", construct="_write_config_for_build: config.write target is not _config_file(font_config)")
         if wcfg.postdominates(wcfg.node_for(ww[0]), wcfg.entry) and not guard_facts(wcfg, wcfg.node_for(ww[0]), skip_abort_guards=True):
             rr.ok("_write_config_for_build writes the resolved config on every path (no 'already up to date' shortcut)")
         else:
@@ -446,3 +474,53 @@ def r09e_impl(model: Model, rr: RuleResult):
                 rr.ok(f"write_font._write: {short(c, 50)} is the last action")
             else:
                 rr.bad(wfi, c, f"_write does work after saving ({after})", construct=f"_write: after {short(c, 40)} comes {after}")
+
+
+FS_PROBES = {"exists", "is_file", "stat", "lstat", "getmtime", "getsize", "getctime", "samefile", "isfile", "cmp", "lexists"}
+FS_PROBE_OK = {("nanoemoji", "_chrome_command"): "looks for the Chrome binary of the QA render-diff tooling"}
+
+
+@RULES.rule("C09", "R09f", "no step decides what to (re)write from files an earlier invocation left behind", floor=20)
+def r09f(model: Model, rr: RuleResult):
+    """A condition that probes the file system (exists / is_file / stat / mtime / size / cmp) and steers control flow makes the result depend on
+    the build directory's history: ninja already decides what is out of date, from declared inputs. Assertions about *inputs* are fine."""
+    n = 0
+    for mname, mod in sorted(model.modules.items()):
+        for fi in mod.functions.values():
+            if "." in fi.qualname and fi.qualname.rsplit(".", 1)[0] in mod.functions:
+                continue  # nested function: scanned with its parent
+            if (mname, fi.qualname) in FS_PROBE_OK or (mname, fi.qualname.split(".")[0]) in FS_PROBE_OK:
+                continue
+            n += 1
+            tests = []
+            for st in walk_body(fi, nested=True):
+                if isinstance(st, (ast.If, ast.While, ast.IfExp)):
+                    tests.append((st, st.test))
+                elif isinstance(st, ast.comprehension):
+                    tests += [(st, c) for c in st.ifs]
+            cfg = None
+            for st, t in tests:
+                probes = [c for c in ast.walk(t) if isinstance(c, ast.Call) and callee_tail(c) in FS_PROBES]
+                # a name in the test that was bound to a probe result
+                if not probes and isinstance(st, (ast.If, ast.While)):
+                    try:
+                        cfg = cfg or cfg_of(fi)
+                        at = cfg.node_for(st)
+                        _, exprs = expr_closure(cfg, at, t)
+                        probes = [c for e in exprs for c in ast.walk(e) if isinstance(c, ast.Call) and callee_tail(c) in FS_PROBES]
+                    except Exception:
+                        probes = []
+                if probes:
+                    rr.bad(fi, st, f"`{short(t, 90)}` probes the file system ({short(probes[0])}) and steers what this step does: the outcome depends on what an earlier "
+                           f"invocation left in the build directory (a stale file of the same name, size or content is kept), so a re-run need not converge to the clean build",
+                           construct=f"{fi.qualname}: control flow on {short(probes[0])}")
+    per_mod = {}
+    for mname, mod in sorted(model.modules.items()):
+        per_mod[mname] = sum(1 for q in mod.functions if not ("." in q and q.rsplit(".", 1)[0] in mod.functions))
+    for mname, k in per_mod.items():
+        if k:
+            rr.ok(f"{mname}: {k} functions scanned, no control flow on exists/is_file/stat/mtime/size/cmp (assertions on inputs aside)")
+    for k, why in FS_PROBE_OK.items():
+        rr.ok(f"reviewed exception {k[0]}.{k[1]}: {why}")
+    if n < 200:
+        raise AnalysisError(f"R09f: only {n} functions scanned")
